@@ -9,9 +9,12 @@ from . import xtypes as X
 from .world import World
 
 I64, F64, I8 = X.sc("Int64"), X.sc("Float64"), X.sc("Int8")
-LEAF = X.struct(I64, X.arr(F64, [-1]))
 ARR2 = X.arr(F64, [2])
-HOLDER = X.struct(I8, X.ref(LEAF), X.arr(X.uref(LEAF, ARR2), [2]), X.STR)
+# two realisations of the model's type family: a dynamically sized and a statically sized Leaf
+FAMILIES = []
+for _leaf in (X.struct(I64, X.arr(F64, [-1])), X.struct(I64, X.arr(F64, [3]))):
+    FAMILIES.append((_leaf, X.struct(I8, X.ref(_leaf), X.arr(X.uref(_leaf, ARR2), [2]), X.STR)))
+LEAF, HOLDER = FAMILIES[0]
 SLOT = {"r": [("f", 1)], "u1": [("f", 2), ("i", [0])], "u2": [("f", 2), ("i", [1])]}
 
 CFG = """SPECIFICATION Spec
@@ -41,6 +44,7 @@ def export(run):
 def replay(model, seed, index):
     """execute one model history; returns the recorded history (with gen info) or None when the harness cannot follow it"""
     rng = random.Random(f"{seed}:gen:{index}")
+    LEAF, HOLDER = FAMILIES[index % 2]
     w = World(rng, caps=[rng.choice([0, 64, 256]), rng.choice([0, 64, 256]), 64])
     w.index = index
     keys = []                 # model object index (1-based) -> world key
@@ -64,7 +68,7 @@ def replay(model, seed, index):
     ok = True
     stopped = ""
     try:
-        ok = _run(model, w, rng, keys, choice, slot_target)
+        ok = _run(model, w, rng, keys, choice, slot_target, LEAF, HOLDER)
     except C.MachineryError:
         raise
     except Exception as ex:      # noqa: see heap.make_history
@@ -73,7 +77,7 @@ def replay(model, seed, index):
     return _finish(model, w, keys, ok, stopped, seed, index, slot_target)
 
 
-def _run(model, w, rng, keys, choice, slot_target):
+def _run(model, w, rng, keys, choice, slot_target, LEAF=None, HOLDER=None):
     ok = True
     for ev in model["hist"]:
         op = ev["op"]
@@ -125,12 +129,12 @@ def _run(model, w, rng, keys, choice, slot_target):
             w.grow(ev["b"] - 1)
         elif op == "copy":
             src = keys[ev["o"] - 1]
-            nk = w.copy(src, ev["b"] - 1)
+            nk = w.copy(src, ev["b"] - 1, whole=True)
             if nk is None:
                 ok = False
                 break
             keys.append(nk)
-            if w.handles[src]["tx"] is HOLDER or X.key(w.handles[src]["tx"]) == X.key(HOLDER):
+            if X.key(w.handles[src]["tx"]) == X.key(HOLDER):
                 if src[0] != ev["b"] - 1:
                     for s in ("r", "u1", "u2"):
                         if slot_target(src, s) is not None:
